@@ -208,6 +208,252 @@ func before(a, b ssa.Instruction) bool {
 	return a.Block().Dominates(b.Block())
 }
 
+// dataCountValues: the values of fn that are the byte count reported by
+// Data.WriteTo - its first result, or the matching result of an in-package
+// helper that hands that count back on every successful return.
+func dataCountValues(c *Ctx, fn *ssa.Function, depth int) map[ssa.Value]bool {
+	out := map[ssa.Value]bool{}
+	if depth > 2 {
+		return out
+	}
+	for _, b := range fn.Blocks {
+		for _, ins := range b.Instrs {
+			call, ok := ins.(*ssa.Call)
+			if !ok {
+				continue
+			}
+			sc := call.Call.StaticCallee()
+			if sc == nil {
+				continue
+			}
+			if funcFullName(sc) == "github.com/blugelabs/bluge_segment_api.(*Data).WriteTo" {
+				if p := tupleParts(call)[0]; p != nil {
+					out[p] = true
+				}
+				continue
+			}
+			if !c.inRoot(sc) || sc.Blocks == nil || sc == fn {
+				continue
+			}
+			inner := dataCountValues(c, sc, depth+1)
+			if len(inner) == 0 {
+				continue
+			}
+			for i, part := range tupleParts(call) {
+				if part == nil {
+					continue
+				}
+				all, n := true, 0
+				for _, rb := range maySucceedReturns(sc) {
+					ret := rb.Instrs[len(rb.Instrs)-1].(*ssa.Return)
+					n++
+					if i >= len(ret.Results) || !inner[resolveLoad(ret.Results[i])] {
+						all = false
+					}
+				}
+				if all && n > 0 {
+					out[part] = true
+				}
+			}
+		}
+	}
+	return out
+}
+
+// hashCoverage: the calls of fn that write to the destination of the hashing
+// writer cwCall: how many go through it, and which bypass it (or go through a
+// buffer in front of it that is not flushed before the CRC is captured).
+func hashCoverage(c *Ctx, fn *ssa.Function, cwCall *ssa.Call, capture ssa.Instruction) (int, []string) {
+	_, _, base := writerChain(cwCall)
+	var bypass []string
+	uses := 0
+	for _, b := range fn.Blocks {
+		for _, ins := range b.Instrs {
+			ci, ok := ins.(ssa.CallInstruction)
+			if !ok || ins == ssa.Instruction(cwCall) {
+				continue
+			}
+			for _, a := range ci.Common().Args {
+				if !isWriterLike(a.Type()) {
+					continue
+				}
+				ch, ctors, ab := writerChain(a)
+				if ab != base {
+					continue
+				}
+				sc := ci.Common().StaticCallee()
+				if sc != nil && (strings.HasPrefix(funcFullName(sc), "bufio.NewWriter") || fnName(sc) == "newCountHashWriter" || sc.Name() == "Flush" || sc.Name() == "Sum32" || sc.Name() == "Count") {
+					continue
+				}
+				through := false
+				for _, ct := range ctors {
+					if ct == ssa.Value(cwCall) {
+						through = true
+					}
+				}
+				if !through {
+					bypass = append(bypass, fmt.Sprintf("%s at %s writes to the destination through %v, bypassing the hashing writer", calleeFullName(ci.Common()), c.pos(ins.Pos()), ch))
+					continue
+				}
+				uses++
+				for i, ct := range ctors {
+					if ct == ssa.Value(cwCall) {
+						break
+					}
+					if ch[i] != "bufio" {
+						continue
+					}
+					flushed := false
+					for _, fb := range fn.Blocks {
+						for _, fi := range fb.Instrs {
+							if fc, ok := fi.(*ssa.Call); ok && fc.Call.StaticCallee() != nil && fc.Call.StaticCallee().Name() == "Flush" && len(fc.Call.Args) > 0 && fc.Call.Args[0] == ct && before(ins, fc) && before(fc, capture) {
+								flushed = true
+							}
+						}
+					}
+					if !flushed {
+						bypass = append(bypass, fmt.Sprintf("%s at %s writes through a bufio.Writer placed in front of the hashing writer, and the running CRC is taken at %s without that buffer having been flushed", calleeFullName(ci.Common()), c.pos(ins.Pos()), c.pos(capture.Pos())))
+					}
+				}
+				if canExecuteAfter(capture, ins) {
+					bypass = append(bypass, fmt.Sprintf("%s at %s can write after the running CRC was taken at %s", calleeFullName(ci.Common()), c.pos(ins.Pos()), c.pos(capture.Pos())))
+				}
+			}
+		}
+	}
+	return uses, bypass
+}
+
+// crcSeedThroughParam decides the seal site of a footer-writing helper fn whose
+// footer crc is its parameter sp: at every call of fn that argument is the
+// result of a sibling helper g called before, g wrote everything it wrote
+// through a hashing writer it created over its writer parameter and hands back
+// that writer's running CRC taken after its last write, both helpers are given
+// the same destination, and nothing else writes to it in between.  false: the
+// shape is not this one (nothing reported).
+func crcSeedThroughParam(c *Ctx, r *Report, key string, fn *ssa.Function, site ssa.CallInstruction, sp *ssa.Parameter, wArg ssa.Value) bool {
+	fch, _, fbase := writerChain(wArg)
+	wp, ok := fbase.(*ssa.Parameter)
+	if !ok || wp.Parent() != fn {
+		return false
+	}
+	sites := c.callsTo(fn)
+	if len(sites) == 0 {
+		return false
+	}
+	type plan struct {
+		hs    ssa.CallInstruction
+		gcall *ssa.Call
+		idx   int
+	}
+	var plans []plan
+	for _, hs := range sites {
+		var gcall *ssa.Call
+		idx := 0
+		switch x := argFor(hs.Common(), sp).(type) {
+		case *ssa.Extract:
+			gcall, _ = x.Tuple.(*ssa.Call)
+			idx = x.Index
+		case *ssa.Call:
+			gcall = x
+		}
+		if gcall == nil || gcall.Call.StaticCallee() == nil || !c.inRoot(gcall.Call.StaticCallee()) || gcall.Call.StaticCallee().Blocks == nil {
+			return false
+		}
+		plans = append(plans, plan{hs, gcall, idx})
+	}
+	for _, pl := range plans {
+		g := pl.gcall.Call.StaticCallee()
+		caller := pl.hs.Parent()
+		at := c.pos(pl.hs.Pos())
+		if !before(pl.gcall, pl.hs) {
+			r.bad(key, fnName(fn), at, "the CRC handed to "+fnName(fn)+" comes from "+fnName(g)+", which does not run before it on every path")
+			return true
+		}
+		var cwCall *ssa.Call
+		var capture ssa.Instruction
+		why := ""
+		for _, rb := range maySucceedReturns(g) {
+			ret := rb.Instrs[len(rb.Instrs)-1].(*ssa.Return)
+			if pl.idx >= len(ret.Results) {
+				why = "result missing"
+				break
+			}
+			v := resolveLoad(ret.Results[pl.idx])
+			cw, ok := isSum32Of(v)
+			if !ok {
+				why = fnName(g) + " hands back " + exprSig(v, 0) + " at " + c.pos(ret.Pos()) + ", not the running CRC of a hashing writer"
+				break
+			}
+			cc, ok := cw.(*ssa.Call)
+			if !ok || cc.Call.StaticCallee() == nil || fnName(cc.Call.StaticCallee()) != "newCountHashWriter" || (cwCall != nil && cwCall != cc) {
+				why = "the hashing writer whose CRC " + fnName(g) + " hands back is not one it created itself"
+				break
+			}
+			cwCall = cc
+			if ci, ok := v.(ssa.Instruction); ok {
+				capture = ci
+			}
+		}
+		if why == "" && (cwCall == nil || capture == nil) {
+			why = fnName(g) + " has no successful return that hands back a CRC"
+		}
+		if why != "" {
+			r.bad(key, fnName(fn), at, "footer crc is seeded from a value that does not cover the data: "+why)
+			return true
+		}
+		dch, _, gbase := writerChain(cwCall)
+		gp, ok := gbase.(*ssa.Parameter)
+		if !ok || gp.Parent() != g {
+			r.undecided(key, fnName(fn), at, "the hashing writer of "+fnName(g)+" is not placed over a writer it was handed")
+			return true
+		}
+		for _, k := range dch[1:] {
+			if k == "bufio" {
+				r.undecided(key, fnName(fn), at, fnName(g)+" puts a buffer behind its hashing writer; the footer helper cannot share it")
+				return true
+			}
+		}
+		uses, bypass := hashCoverage(c, g, cwCall, capture)
+		if len(bypass) > 0 {
+			r.bad(key, fnName(fn), at, "bytes reach the destination without being hashed", bypass...)
+			return true
+		}
+		if uses == 0 {
+			r.bad(key, fnName(fn), at, "no data is written through the countHashWriter whose CRC seeds the footer")
+			return true
+		}
+		_, _, d1 := writerChain(argFor(&pl.gcall.Call, gp))
+		_, _, d2 := writerChain(argFor(pl.hs.Common(), wp))
+		if d1 != d2 {
+			r.bad(key, fnName(fn), at, "the footer is written to a different destination than the data")
+			return true
+		}
+		for _, b := range caller.Blocks {
+			for _, ins := range b.Instrs {
+				ci, ok := ins.(ssa.CallInstruction)
+				if !ok || ins == ssa.Instruction(pl.hs) || ins == ssa.Instruction(pl.gcall) || !before(ins, pl.hs) {
+					continue
+				}
+				for _, a := range ci.Common().Args {
+					if !isWriterLike(a.Type()) {
+						continue
+					}
+					if _, _, ab := writerChain(a); ab == d1 {
+						if sc := ci.Common().StaticCallee(); sc != nil && (strings.HasPrefix(funcFullName(sc), "bufio.NewWriter") || fnName(sc) == "newCountHashWriter") {
+							continue
+						}
+						r.bad(key, fnName(fn), at, "bytes reach the destination without being hashed", fmt.Sprintf("%s at %s writes to the destination beside %s", calleeFullName(ci.Common()), c.pos(ins.Pos()), fnName(g)))
+						return true
+					}
+				}
+			}
+		}
+	}
+	r.ok(key, fnName(fn), c.pos(site.Pos()), fmt.Sprintf("footer crc = the CRC handed in by the caller, which is the running CRC of the hashing writer through which the data helper wrote everything (%d call site(s)); footer writer chain %v on the same destination", len(plans), fch))
+	return true
+}
+
 func init() {
 	register(&Rule{
 		Name:  "CRC-SEED",
@@ -392,6 +638,13 @@ func init() {
 				{
 					var ok bool
 					cw, ok = isSum32Of(seed.Val)
+					if sp, isParam := seed.Val.(*ssa.Parameter); !ok && isParam && sp.Parent() == fn {
+						// Design D: the footer is written by a helper that is handed the CRC of the data,
+						// taken by a sibling helper that wrote the data through its own hashing writer
+						if crcSeedThroughParam(c, r, key, fn, site, sp, wArg) {
+							continue
+						}
+					}
 					if !ok {
 						r.bad(key, fnName(fn), c.pos(seed.Pos()), "footer crc is seeded from "+seed.Val.String()+", not from the running CRC of a countHashWriter")
 						continue
@@ -858,17 +1111,10 @@ func init() {
 			// Segment.WriteTo
 			fn := c.MustFn("(*Segment).WriteTo")
 			key := "(*Segment).WriteTo/returns"
+			dataNs := dataCountValues(c, fn, 0)
 			var dataN ssa.Value
-			for _, b := range fn.Blocks {
-				for _, ins := range b.Instrs {
-					if call, ok := ins.(*ssa.Call); ok {
-						if sc := call.Call.StaticCallee(); sc != nil && funcFullName(sc) == "github.com/blugelabs/bluge_segment_api.(*Data).WriteTo" {
-							if p := tupleParts(call)[0]; p != nil {
-								dataN = p
-							}
-						}
-					}
-				}
+			for v := range dataNs {
+				dataN = v
 			}
 			good, bad := 0, ""
 			for _, b := range fn.Blocks {
@@ -892,7 +1138,7 @@ func init() {
 					continue
 				}
 				k, kok := constInt(bin.Y)
-				if bin.X != dataN || !kok || k != footerLen {
+				if !dataNs[bin.X] || !kok || k != footerLen {
 					bad = fmt.Sprintf("success return adds %v to %s, expected footerLen=%d added to the Data.WriteTo count", bin.Y, bin.X.Name(), footerLen)
 					continue
 				}
